@@ -1632,3 +1632,44 @@ Proof.
   - apply ftype_is_spec; exact Ht.
   - apply mem_str_false; exact Hm.
 Qed.
+
+(* ================================================================== *)
+(* the client reads a placement                                         *)
+
+Lemma res_ctor_indices r : indices (res_ctor r) = indices r.
+Proof.
+  destruct r as [[|x l]|[|x l]|l|l|l]; simpl; try reflexivity.
+  rewrite map_fst_busy; reflexivity.
+Qed.
+
+Lemma pslot_ctor_placement s : pplacement1 (pslot_ctor s) = pplacement1 s.
+Proof. unfold pplacement1, pslot_ctor; simpl. rewrite !res_ctor_indices. reflexivity. Qed.
+
+(* whatever list of slots a writer left -- new format, complete old format, or only cores and
+   gpus -- Task.slots does not fail and names the same nodes, cores, GPUs, lfs and mem *)
+Theorem client_slots_placement l :
+  exists r, client_slots (CSlots l) = inr r /\ pplacement r = pplacement l.
+Proof.
+  destruct l as [|s r]; simpl; [exists []; split; reflexivity|].
+  destruct (pversion_falsy s).
+  - eexists; split; [reflexivity|]. unfold pplacement. simpl. rewrite pslot_ctor_placement. f_equal.
+    rewrite map_map. apply map_ext. intro a; apply pslot_ctor_placement.
+  - eexists; split; reflexivity.
+Qed.
+
+Lemma res_ctor_idem r : res_ctor (res_ctor r) = res_ctor r.
+Proof. destruct r as [[|x l]|[|x l]|l|l|l]; reflexivity. Qed.
+
+Lemma pslot_ctor_idem s : pslot_ctor (pslot_ctor s) = pslot_ctor s.
+Proof. unfold pslot_ctor; simpl. rewrite !res_ctor_idem. reflexivity. Qed.
+
+(* reading a second time (the first read stored the upgraded slots) changes nothing *)
+Theorem client_slots_again l r :
+  client_slots (CSlots l) = inr r -> client_slots (CSlots r) = inr r.
+Proof.
+  destruct l as [|s t]; simpl; [intro H; injection H as <-; reflexivity|].
+  destruct (pversion_falsy s) eqn:E; intro H; injection H as <-; simpl.
+  - destruct (pversion_falsy (pslot_ctor s)); [|reflexivity].
+    rewrite pslot_ctor_idem. f_equal. f_equal. rewrite map_map. apply map_ext. intro a; apply pslot_ctor_idem.
+  - rewrite E; reflexivity.
+Qed.
